@@ -32,7 +32,7 @@ class Ep:
             self.protocol = secsgem.hsms.HsmsProtocol(self.settings)
             self.protocol.events.message_received += self._on_msg
         elif kind == "equipment":
-            self.handler = secsgem.gem.GemEquipmentHandler(self.settings, **kw)
+            self.handler = kw.pop("handler_cls", secsgem.gem.GemEquipmentHandler)(self.settings, **kw)
             self.protocol = self.handler.protocol
         elif kind == "host":
             self.handler = secsgem.gem.GemHostHandler(self.settings, **kw)
